@@ -103,19 +103,35 @@ fn check_reason(l: bool, t: bool, m: bool) {
     assert!(u.is_none(), "C16/evict/unknown_peer_never_candidate");
 }
 
-// @verif property=C16 class=bounded bound="tracked peers: X (all 8 presence combinations) + 1 other; all u32 counts, all f64 scores/thresholds incl. NaN" fns=EvictionManager::get_eviction_reason,EvictionManager::should_evict,EvictionManager::should_evict_for_trust,EvictionManager::get_consecutive_failures,EvictionManager::new uses=check_reason,mk_manager unwindset="memcmp:34,simd_bitmask_impl:18,Hasher>::write:7,rehash_in_place:10,resize_inner:10,prepare_rehash_in_place:10,FullBucketsIndices:10" tier=quick,thorough panic=violation
-#[kani::proof]
-#[kani::stub(std::time::Instant::now, stub_instant_now)]
-#[kani::stub(std::hash::RandomState::new, stub_random_state)]
-#[kani::stub(alloc::fmt::format, stub_format)]
-#[kani::unwind(5)]
-fn c16_eviction_reason_policy() {
-    let mut k = 0u8;
-    while k < 8 {
-        check_reason(k & 1 != 0, k & 2 != 0, k & 4 != 0);
-        k += 1;
-    }
+macro_rules! evict_harness {
+    ($name:ident, $f:ident, $k:expr) => {
+        #[kani::proof]
+        #[kani::stub(std::time::Instant::now, stub_instant_now)]
+        #[kani::stub(std::hash::RandomState::new, stub_random_state)]
+        #[kani::stub(alloc::fmt::format, stub_format)]
+        #[kani::unwind(5)]
+        fn $name() {
+            $f($k & 1 != 0, $k & 2 != 0, $k & 4 != 0);
+        }
+    };
 }
+
+// @verif property=C16 class=bounded bound="peer X tracked in: liveness=no, trust=no, marked=no; plus 1 other tracked peer; all u32 counts, all f64 scores/thresholds incl. NaN" fns=EvictionManager::get_eviction_reason,EvictionManager::should_evict,EvictionManager::should_evict_for_trust,EvictionManager::get_consecutive_failures uses=check_reason,mk_manager,evict_harness unwindset="memcmp:34,simd_bitmask_impl:18,Hasher>::write:7,rehash_in_place:10,resize_inner:10,prepare_rehash_in_place:10,FullBucketsIndices:10" tier=quick,thorough panic=violation
+evict_harness!(c16_eviction_reason_policy_0, check_reason, 0u8);
+// @verif property=C16 class=bounded bound="peer X tracked in: liveness=yes, trust=no, marked=no; plus 1 other tracked peer; all u32 counts, all f64 scores/thresholds incl. NaN" fns=EvictionManager::get_eviction_reason,EvictionManager::should_evict,EvictionManager::should_evict_for_trust,EvictionManager::get_consecutive_failures uses=check_reason,mk_manager,evict_harness unwindset="memcmp:34,simd_bitmask_impl:18,Hasher>::write:7,rehash_in_place:10,resize_inner:10,prepare_rehash_in_place:10,FullBucketsIndices:10" tier=quick,thorough panic=violation
+evict_harness!(c16_eviction_reason_policy_1, check_reason, 1u8);
+// @verif property=C16 class=bounded bound="peer X tracked in: liveness=no, trust=yes, marked=no; plus 1 other tracked peer; all u32 counts, all f64 scores/thresholds incl. NaN" fns=EvictionManager::get_eviction_reason,EvictionManager::should_evict,EvictionManager::should_evict_for_trust,EvictionManager::get_consecutive_failures uses=check_reason,mk_manager,evict_harness unwindset="memcmp:34,simd_bitmask_impl:18,Hasher>::write:7,rehash_in_place:10,resize_inner:10,prepare_rehash_in_place:10,FullBucketsIndices:10" tier=quick,thorough panic=violation
+evict_harness!(c16_eviction_reason_policy_2, check_reason, 2u8);
+// @verif property=C16 class=bounded bound="peer X tracked in: liveness=yes, trust=yes, marked=no; plus 1 other tracked peer; all u32 counts, all f64 scores/thresholds incl. NaN" fns=EvictionManager::get_eviction_reason,EvictionManager::should_evict,EvictionManager::should_evict_for_trust,EvictionManager::get_consecutive_failures uses=check_reason,mk_manager,evict_harness unwindset="memcmp:34,simd_bitmask_impl:18,Hasher>::write:7,rehash_in_place:10,resize_inner:10,prepare_rehash_in_place:10,FullBucketsIndices:10" tier=quick,thorough panic=violation
+evict_harness!(c16_eviction_reason_policy_3, check_reason, 3u8);
+// @verif property=C16 class=bounded bound="peer X tracked in: liveness=no, trust=no, marked=yes; plus 1 other tracked peer; all u32 counts, all f64 scores/thresholds incl. NaN" fns=EvictionManager::get_eviction_reason,EvictionManager::should_evict,EvictionManager::should_evict_for_trust,EvictionManager::get_consecutive_failures uses=check_reason,mk_manager,evict_harness unwindset="memcmp:34,simd_bitmask_impl:18,Hasher>::write:7,rehash_in_place:10,resize_inner:10,prepare_rehash_in_place:10,FullBucketsIndices:10" tier=quick,thorough panic=violation
+evict_harness!(c16_eviction_reason_policy_4, check_reason, 4u8);
+// @verif property=C16 class=bounded bound="peer X tracked in: liveness=yes, trust=no, marked=yes; plus 1 other tracked peer; all u32 counts, all f64 scores/thresholds incl. NaN" fns=EvictionManager::get_eviction_reason,EvictionManager::should_evict,EvictionManager::should_evict_for_trust,EvictionManager::get_consecutive_failures uses=check_reason,mk_manager,evict_harness unwindset="memcmp:34,simd_bitmask_impl:18,Hasher>::write:7,rehash_in_place:10,resize_inner:10,prepare_rehash_in_place:10,FullBucketsIndices:10" tier=quick,thorough panic=violation
+evict_harness!(c16_eviction_reason_policy_5, check_reason, 5u8);
+// @verif property=C16 class=bounded bound="peer X tracked in: liveness=no, trust=yes, marked=yes; plus 1 other tracked peer; all u32 counts, all f64 scores/thresholds incl. NaN" fns=EvictionManager::get_eviction_reason,EvictionManager::should_evict,EvictionManager::should_evict_for_trust,EvictionManager::get_consecutive_failures uses=check_reason,mk_manager,evict_harness unwindset="memcmp:34,simd_bitmask_impl:18,Hasher>::write:7,rehash_in_place:10,resize_inner:10,prepare_rehash_in_place:10,FullBucketsIndices:10" tier=quick,thorough panic=violation
+evict_harness!(c16_eviction_reason_policy_6, check_reason, 6u8);
+// @verif property=C16 class=bounded bound="peer X tracked in: liveness=yes, trust=yes, marked=yes; plus 1 other tracked peer; all u32 counts, all f64 scores/thresholds incl. NaN" fns=EvictionManager::get_eviction_reason,EvictionManager::should_evict,EvictionManager::should_evict_for_trust,EvictionManager::get_consecutive_failures uses=check_reason,mk_manager,evict_harness unwindset="memcmp:34,simd_bitmask_impl:18,Hasher>::write:7,rehash_in_place:10,resize_inner:10,prepare_rehash_in_place:10,FullBucketsIndices:10" tier=quick,thorough panic=violation
+evict_harness!(c16_eviction_reason_policy_7, check_reason, 7u8);
 
 fn check_events(l: bool, t: bool, m: bool) {
     let (mgr, x, y) = mk_manager(l, t, m, true);
@@ -161,19 +177,22 @@ fn check_events(l: bool, t: bool, m: bool) {
     assert!(!mgr.marked_for_eviction.contains_key(&id(2)), "C16/evict/other_peer_not_marked");
 }
 
-// @verif property=C16 class=bounded bound="one event on X (8 presence combinations) with one other tracked peer" fns=EvictionManager::record_failure,EvictionManager::record_success,EvictionManager::update_trust_score,EvictionManager::record_eviction,EvictionManager::remove_node uses=check_events,mk_manager unwindset="memcmp:34,simd_bitmask_impl:18,Hasher>::write:7,rehash_in_place:10,resize_inner:10,prepare_rehash_in_place:10,FullBucketsIndices:10" tier=quick,thorough panic=violation
-#[kani::proof]
-#[kani::stub(std::time::Instant::now, stub_instant_now)]
-#[kani::stub(std::hash::RandomState::new, stub_random_state)]
-#[kani::stub(alloc::fmt::format, stub_format)]
-#[kani::unwind(5)]
-fn c16_eviction_events() {
-    let mut k = 0u8;
-    while k < 8 {
-        check_events(k & 1 != 0, k & 2 != 0, k & 4 != 0);
-        k += 1;
-    }
-}
+// @verif property=C16 class=bounded bound="one event (failure/success/trust update/mark/forget) on peer X tracked in: liveness=no, trust=no, marked=no; one other tracked peer" fns=EvictionManager::record_failure,EvictionManager::record_success,EvictionManager::update_trust_score,EvictionManager::record_eviction,EvictionManager::remove_node uses=check_events,mk_manager,evict_harness unwindset="memcmp:34,simd_bitmask_impl:18,Hasher>::write:7,rehash_in_place:10,resize_inner:10,prepare_rehash_in_place:10,FullBucketsIndices:10" tier=quick,thorough panic=violation
+evict_harness!(c16_eviction_events_0, check_events, 0u8);
+// @verif property=C16 class=bounded bound="one event (failure/success/trust update/mark/forget) on peer X tracked in: liveness=yes, trust=no, marked=no; one other tracked peer" fns=EvictionManager::record_failure,EvictionManager::record_success,EvictionManager::update_trust_score,EvictionManager::record_eviction,EvictionManager::remove_node uses=check_events,mk_manager,evict_harness unwindset="memcmp:34,simd_bitmask_impl:18,Hasher>::write:7,rehash_in_place:10,resize_inner:10,prepare_rehash_in_place:10,FullBucketsIndices:10" tier=quick,thorough panic=violation
+evict_harness!(c16_eviction_events_1, check_events, 1u8);
+// @verif property=C16 class=bounded bound="one event (failure/success/trust update/mark/forget) on peer X tracked in: liveness=no, trust=yes, marked=no; one other tracked peer" fns=EvictionManager::record_failure,EvictionManager::record_success,EvictionManager::update_trust_score,EvictionManager::record_eviction,EvictionManager::remove_node uses=check_events,mk_manager,evict_harness unwindset="memcmp:34,simd_bitmask_impl:18,Hasher>::write:7,rehash_in_place:10,resize_inner:10,prepare_rehash_in_place:10,FullBucketsIndices:10" tier=quick,thorough panic=violation
+evict_harness!(c16_eviction_events_2, check_events, 2u8);
+// @verif property=C16 class=bounded bound="one event (failure/success/trust update/mark/forget) on peer X tracked in: liveness=yes, trust=yes, marked=no; one other tracked peer" fns=EvictionManager::record_failure,EvictionManager::record_success,EvictionManager::update_trust_score,EvictionManager::record_eviction,EvictionManager::remove_node uses=check_events,mk_manager,evict_harness unwindset="memcmp:34,simd_bitmask_impl:18,Hasher>::write:7,rehash_in_place:10,resize_inner:10,prepare_rehash_in_place:10,FullBucketsIndices:10" tier=quick,thorough panic=violation
+evict_harness!(c16_eviction_events_3, check_events, 3u8);
+// @verif property=C16 class=bounded bound="one event (failure/success/trust update/mark/forget) on peer X tracked in: liveness=no, trust=no, marked=yes; one other tracked peer" fns=EvictionManager::record_failure,EvictionManager::record_success,EvictionManager::update_trust_score,EvictionManager::record_eviction,EvictionManager::remove_node uses=check_events,mk_manager,evict_harness unwindset="memcmp:34,simd_bitmask_impl:18,Hasher>::write:7,rehash_in_place:10,resize_inner:10,prepare_rehash_in_place:10,FullBucketsIndices:10" tier=quick,thorough panic=violation
+evict_harness!(c16_eviction_events_4, check_events, 4u8);
+// @verif property=C16 class=bounded bound="one event (failure/success/trust update/mark/forget) on peer X tracked in: liveness=yes, trust=no, marked=yes; one other tracked peer" fns=EvictionManager::record_failure,EvictionManager::record_success,EvictionManager::update_trust_score,EvictionManager::record_eviction,EvictionManager::remove_node uses=check_events,mk_manager,evict_harness unwindset="memcmp:34,simd_bitmask_impl:18,Hasher>::write:7,rehash_in_place:10,resize_inner:10,prepare_rehash_in_place:10,FullBucketsIndices:10" tier=quick,thorough panic=violation
+evict_harness!(c16_eviction_events_5, check_events, 5u8);
+// @verif property=C16 class=bounded bound="one event (failure/success/trust update/mark/forget) on peer X tracked in: liveness=no, trust=yes, marked=yes; one other tracked peer" fns=EvictionManager::record_failure,EvictionManager::record_success,EvictionManager::update_trust_score,EvictionManager::record_eviction,EvictionManager::remove_node uses=check_events,mk_manager,evict_harness unwindset="memcmp:34,simd_bitmask_impl:18,Hasher>::write:7,rehash_in_place:10,resize_inner:10,prepare_rehash_in_place:10,FullBucketsIndices:10" tier=quick,thorough panic=violation
+evict_harness!(c16_eviction_events_6, check_events, 6u8);
+// @verif property=C16 class=bounded bound="one event (failure/success/trust update/mark/forget) on peer X tracked in: liveness=yes, trust=yes, marked=yes; one other tracked peer" fns=EvictionManager::record_failure,EvictionManager::record_success,EvictionManager::update_trust_score,EvictionManager::record_eviction,EvictionManager::remove_node uses=check_events,mk_manager,evict_harness unwindset="memcmp:34,simd_bitmask_impl:18,Hasher>::write:7,rehash_in_place:10,resize_inner:10,prepare_rehash_in_place:10,FullBucketsIndices:10" tier=quick,thorough panic=violation
+evict_harness!(c16_eviction_events_7, check_events, 7u8);
 
 fn check_candidates(l: bool, t: bool, m: bool) {
     let (mgr, x, y) = mk_manager(l, t, m, true);
@@ -202,45 +221,22 @@ fn check_candidates(l: bool, t: bool, m: bool) {
     assert!(ny == if y_is { 1 } else { 0 }, "C16/evict/candidate_list_exact_for_other_peer");
 }
 
-// @verif property=C16 class=bounded bound="2 tracked peers (8 presence combinations of the first)" fns=EvictionManager::get_eviction_candidates uses=check_candidates,mk_manager unwindset="memcmp:34,simd_bitmask_impl:18,Hasher>::write:7,rehash_in_place:10,resize_inner:10,prepare_rehash_in_place:10,FullBucketsIndices:10" tier=quick,thorough panic=violation
-#[kani::proof]
-#[kani::stub(std::time::Instant::now, stub_instant_now)]
-#[kani::stub(std::hash::RandomState::new, stub_random_state)]
-#[kani::stub(alloc::fmt::format, stub_format)]
-#[kani::unwind(5)]
-fn c16_eviction_candidates() {
-    let mut k = 0u8;
-    while k < 8 {
-        check_candidates(k & 1 != 0, k & 2 != 0, k & 4 != 0);
-        k += 1;
-    }
-}
-
-// @verif property=C16 class=bounded bound="exp" fns=x uses=check_reason,mk_manager tier=exp cbmc_args="--max-field-sensitivity-array-size 1024" unwindset="memcmp:34,simd_bitmask_impl:18,Hasher>::write:7,rehash_in_place:10,resize_inner:10,prepare_rehash_in_place:10,FullBucketsIndices:10"
-#[kani::proof]
-#[kani::stub(std::time::Instant::now, stub_instant_now)]
-#[kani::stub(std::hash::RandomState::new, stub_random_state)]
-#[kani::stub(alloc::fmt::format, stub_format)]
-#[kani::unwind(5)]
-fn exp_one_combo() {
-    let (mgr, x, _y) = mk_manager(true, true, false, false);
-    let mgr = ManuallyDrop::new(mgr);
-    let r = ManuallyDrop::new(mgr.get_eviction_reason(&id(1)));
-    assert!(r.is_some() == spec_candidate(&mgr, &x, true, true, false), "C16/evict/candidate_exactly_when_policy_says");
-}
-
-// @verif property=C16 class=bounded bound="exp" fns=x tier=exp unwindset="memcmp:34,simd_bitmask_impl:18,Hasher>::write:7,rehash_in_place:10,resize_inner:10,prepare_rehash_in_place:10,FullBucketsIndices:10"
-#[kani::proof]
-#[kani::stub(std::hash::RandomState::new, stub_random_state)]
-#[kani::unwind(5)]
-fn exp_min_hashmap() {
-    let mut m: HashMap<u32, u32> = HashMap::new();
-    let v: u32 = kani::any();
-    m.insert(7, v);
-    let g = m.get(&7).copied();
-    std::mem::forget(m);
-    assert!(g == Some(v), "C16/exp/get_after_insert");
-}
+// @verif property=C16 class=bounded bound="2 tracked peers; first tracked in: liveness=no, trust=no, marked=no" fns=EvictionManager::get_eviction_candidates uses=check_candidates,mk_manager,evict_harness unwindset="memcmp:34,simd_bitmask_impl:18,Hasher>::write:7,rehash_in_place:10,resize_inner:10,prepare_rehash_in_place:10,FullBucketsIndices:10" tier=quick,thorough panic=violation
+evict_harness!(c16_eviction_candidates_0, check_candidates, 0u8);
+// @verif property=C16 class=bounded bound="2 tracked peers; first tracked in: liveness=yes, trust=no, marked=no" fns=EvictionManager::get_eviction_candidates uses=check_candidates,mk_manager,evict_harness unwindset="memcmp:34,simd_bitmask_impl:18,Hasher>::write:7,rehash_in_place:10,resize_inner:10,prepare_rehash_in_place:10,FullBucketsIndices:10" tier=quick,thorough panic=violation
+evict_harness!(c16_eviction_candidates_1, check_candidates, 1u8);
+// @verif property=C16 class=bounded bound="2 tracked peers; first tracked in: liveness=no, trust=yes, marked=no" fns=EvictionManager::get_eviction_candidates uses=check_candidates,mk_manager,evict_harness unwindset="memcmp:34,simd_bitmask_impl:18,Hasher>::write:7,rehash_in_place:10,resize_inner:10,prepare_rehash_in_place:10,FullBucketsIndices:10" tier=quick,thorough panic=violation
+evict_harness!(c16_eviction_candidates_2, check_candidates, 2u8);
+// @verif property=C16 class=bounded bound="2 tracked peers; first tracked in: liveness=yes, trust=yes, marked=no" fns=EvictionManager::get_eviction_candidates uses=check_candidates,mk_manager,evict_harness unwindset="memcmp:34,simd_bitmask_impl:18,Hasher>::write:7,rehash_in_place:10,resize_inner:10,prepare_rehash_in_place:10,FullBucketsIndices:10" tier=quick,thorough panic=violation
+evict_harness!(c16_eviction_candidates_3, check_candidates, 3u8);
+// @verif property=C16 class=bounded bound="2 tracked peers; first tracked in: liveness=no, trust=no, marked=yes" fns=EvictionManager::get_eviction_candidates uses=check_candidates,mk_manager,evict_harness unwindset="memcmp:34,simd_bitmask_impl:18,Hasher>::write:7,rehash_in_place:10,resize_inner:10,prepare_rehash_in_place:10,FullBucketsIndices:10" tier=quick,thorough panic=violation
+evict_harness!(c16_eviction_candidates_4, check_candidates, 4u8);
+// @verif property=C16 class=bounded bound="2 tracked peers; first tracked in: liveness=yes, trust=no, marked=yes" fns=EvictionManager::get_eviction_candidates uses=check_candidates,mk_manager,evict_harness unwindset="memcmp:34,simd_bitmask_impl:18,Hasher>::write:7,rehash_in_place:10,resize_inner:10,prepare_rehash_in_place:10,FullBucketsIndices:10" tier=quick,thorough panic=violation
+evict_harness!(c16_eviction_candidates_5, check_candidates, 5u8);
+// @verif property=C16 class=bounded bound="2 tracked peers; first tracked in: liveness=no, trust=yes, marked=yes" fns=EvictionManager::get_eviction_candidates uses=check_candidates,mk_manager,evict_harness unwindset="memcmp:34,simd_bitmask_impl:18,Hasher>::write:7,rehash_in_place:10,resize_inner:10,prepare_rehash_in_place:10,FullBucketsIndices:10" tier=quick,thorough panic=violation
+evict_harness!(c16_eviction_candidates_6, check_candidates, 6u8);
+// @verif property=C16 class=bounded bound="2 tracked peers; first tracked in: liveness=yes, trust=yes, marked=yes" fns=EvictionManager::get_eviction_candidates uses=check_candidates,mk_manager,evict_harness unwindset="memcmp:34,simd_bitmask_impl:18,Hasher>::write:7,rehash_in_place:10,resize_inner:10,prepare_rehash_in_place:10,FullBucketsIndices:10" tier=quick,thorough panic=violation
+evict_harness!(c16_eviction_candidates_7, check_candidates, 7u8);
 
 #[cfg(test)]
 include!("/verif/.build/replay/eviction.rs");
